@@ -204,6 +204,34 @@ def binding_demo(run, files, checked):
     run.cov["binding_demo"] = "one corrupted result and one dropped commit of accepted real traces were both rejected by TLC"
 
 
+def binding_demo_crash(run, files, checked):
+    """corrupt the recovered state of one accepted probe -> TLC must reject exactly there"""
+    wd = vlib.scratch("verif.kvb.")
+    cfgb = trace_cfg(checked)
+    for f in files[:6]:
+        lines = [l.strip() for l in open(f) if l.strip()]
+        idx = [i for i, l in enumerate(lines) if '"op":"crashprobe"' in l and '"ok":true' in l]
+        if not idx:
+            continue
+        i = idx[len(idx) // 2]
+        e = json.loads(lines[i])
+        if checked == ["crash22"]:
+            if not e.get("hasfiles"):
+                continue
+            e["files"] = list(e["files"]) + [424242]
+        else:
+            pts = e["state"]["pts"]
+            pts[0] = list(pts[0]) + [424242]
+        p = os.path.join(wd, "c.ndjson")
+        open(p, "w").write("\n".join(lines[:i] + [json.dumps(e)] + lines[i + 1:]) + "\n")
+        v = vlib.validate_trace(SPECDIR, "KVTrace", "KVTraceRun.cfg", p, extra_files={"KVTraceRun.cfg": cfgb})
+        if v.accepted or v.hwm != i:
+            raise vlib.Inconclusive("binding demo: corrupted recovered state at line %d of %s: accepted=%s hwm=%d" % (i + 1, f, v.accepted, v.hwm))
+        run.cov["binding_demo"] = "a recovered state with one foreign value id was rejected by TLC at exactly that probe"
+        return
+    raise vlib.Inconclusive("binding demo: no probe found to corrupt")
+
+
 def stats(files, checked):
     """count checked events and distinct non-trivial traces"""
     evals = 0
